@@ -39,7 +39,7 @@ ASSUMPTIONS = ["ASCII identifiers only (the driver answers skip for anything els
                "round-trip clause, which uses the implementation's own == on user-constructed specs",
                "denotation clauses (shape, input_keys) are evaluated directly only for specs whose arrays have pairwise distinct "
                "index names and distinct input names; other accepted specs are compared with the model only",
-               "mapspec_axes is compared only when every array's named positions are 0..k-1 (the other case is DF-29b, owned by C19)"]
+               "mapspec_axes is compared in its repaired (DF-29) form: positional tuples of the full rank with None for an axis no MapSpec names"]
 
 WS_IN = [" ", "  ", "\t", "\r", "\x0b", "\x0c", " \t "]                # inside brackets: everything strip() removes except \n
 WS_OUT = WS_IN + ["\n", " \n "]
@@ -636,8 +636,7 @@ def run_multi_impl(case):
         cons = False
     except Exception as e:  # noqa: BLE001
         cons = {"err": exc_enum(e)}
-    named = {n for s in case["specs"] for n, axs in s["inputs"] + s["outputs"] if any(a is not None for a in axs)}
-    ax = attempt(lambda: mapspec_axes(ms), lambda d: sorted([k, list(v)] for k, v in d.items() if k in named))
+    ax = attempt(lambda: mapspec_axes(ms), lambda d: sorted([k, list(v)] for k, v in d.items()))
     return {"consistent": cons, "axes": ax}, []
 
 
@@ -745,8 +744,7 @@ def check_cases(ctx, cases):
             ctx.count(f"multi:consistent={o['consistent']}")
             ctx.count("multi:axes-" + ("ok" if "ok" in o["axes"] else o["axes"]["err"]))
             if not gap_free(case["specs"]):
-                ctx.count("multi:axes-gap-not-compared")
-                o = dict(o, axes=None); model = dict(model, axes=None)
+                ctx.count("multi:axes-with-unnamed-positions")
         ctx.record(case, nontrivial(case))
         if bad:
             ctx.violation(case, bad[0], impl=o, model=model, key=clause_key(bad[0]))
